@@ -49,7 +49,12 @@ pub fn compare_sentinel(c: &Context, s: &SentinelTruth) -> (Vec<String>, u64) {
     compared += 1;
     match s.mode {
         Mode::Pause => {
-            if c.rip != s.stub_addr + STUB_PAUSE_AFTER_SYSCALL {
+            // blocked inside pause(2): rip is just after the syscall instruction. A thread whose
+            // pause was interrupted by a stop and that has been continued (SIGCONT placed during the
+            // dump) restarts the call: the kernel steps rip back onto the 2-byte syscall instruction
+            // and restores rax = 34; caught there before it re-enters the kernel, that IS its state.
+            let restarting = c.rip + 2 == s.stub_addr + STUB_PAUSE_AFTER_SYSCALL && ctx_gpr(c, RAX) == 34;
+            if c.rip != s.stub_addr + STUB_PAUSE_AFTER_SYSCALL && !restarting {
                 bad.push(format!("rip: captured {:#x} expected {:#x} (after the syscall instruction)", c.rip, s.stub_addr + STUB_PAUSE_AFTER_SYSCALL));
             }
         }
